@@ -669,6 +669,31 @@ theorem front_spec (H : Hash) (szEntry : Nat) (hs : szEntry ≤ 64) (d : Bytes) 
           have e : (d.length - 28) / 20 * szEntry ≤ (d.length - 28) / 20 * 64 := Nat.mul_le_mul_left _ hs
           omega
 
+/-! ### `LruManager::load_from_disk` link check (fix b5d4e35 / 1b8e830) -/
+open Cascette.Model.ParseFronts.Lru in
+/-- where the validating walk reaches the sentinel, so does the plain `next` walk of
+`for_each_entry` with the same fuel — and it never indexes outside the table. -/
+theorem walk_chain (es : List Model.Integrity.Lru.Entry) :
+    ∀ (k prev idx : Nat) (seen : List Nat) (r : Nat × List Nat),
+      walk es k prev idx seen = some r → chain es k idx = some true := by
+  intro k
+  induction k with
+  | zero => intro prev idx seen r h; simp [walk] at h
+  | succ k ih =>
+    intro prev idx seen r h
+    unfold walk at h
+    unfold chain
+    split
+    · rfl
+    · rename_i hs
+      rw [if_neg hs] at h
+      split at h
+      · cases h
+      · rename_i e he
+        split at h
+        · cases h
+        · exact ih _ _ _ _ h
+
 end Lru
 
 end Cascette.Proofs.ParseFronts
